@@ -274,4 +274,198 @@ Proof.
     + cbn [F]. split; [assumption|]. split; [f_lia|]. split; [discriminate|f_lia].
 Qed.
 
+Lemma parseScaleFactorOpt_F fuel lo it o : valid it -> (lo <= i_off it)%nat -> (mu it + 1 <= fuel)%nat ->
+  F lo (strictIf (i_off it)) (parseScaleFactorOpt fuel it o).
+Proof.
+  intros V L Hf. unfold parseScaleFactorOpt. f_step.
+  pose proof (parseVarIdent_F lo it' o H ltac:(lia)) as HF.
+  destruct (parseVarIdent it' o) as [a r'|e| |]; cbn [F] in HF; [| |exact I|contradiction].
+  - destruct HF as (Vr & Lr & Hs). f_go.
+  - f_step; [apply (proj1 (parseArithmetic_F fuel)); [assumption|f_lia|f_mu it]|]. destruct a; f_go.
+Qed.
+
+Lemma parseFieldMask_F lo it o : valid it -> (lo <= i_off it)%nat -> F lo anyP (parseFieldMask it o).
+Proof.
+  intros V L. unfold parseFieldMask. f_step.
+  pose proof (parseVarIdent_F lo it' o H ltac:(lia)) as HF.
+  destruct (parseVarIdent it' o) as [a r'|e| |]; cbn [F] in HF; [| |exact I|contradiction].
+  - destruct HF as (Vr & Lr & Hs). f_go.
+  - f_go.
+Qed.
+
+Lemma parseFieldName_F lo it o : valid it -> (lo <= i_off it)%nat -> F lo (fun _ off => (i_off it <= off)%nat) (parseFieldName it o).
+Proof.
+  intros V L. unfold parseFieldName.
+  pose proof (parseVarIdent_F lo it o V L) as HF.
+  destruct (parseVarIdent it o) as [a r'|e| |]; cbn [F] in HF; [| |exact I|contradiction].
+  - destruct HF as (Vr & Lr & Hs). f_go.
+  - f_go.
+Qed.
+
+(** ** type references: 8 * mu + c, c ordered along the calls that consume nothing *)
+Lemma typeref_F fuel :
+  (forall lo it af ar o, valid it -> (lo <= i_off it)%nat -> (8 * mu it + 2 <= fuel)%nat ->
+     F lo (strictIf (i_off it)) (parseTypeRef fuel it af ar o)) /\
+  (forall lo it o, valid it -> (lo <= i_off it)%nat -> (8 * mu it + 4 <= fuel)%nat ->
+     F lo (fun _ off => (i_off it <= off)%nat) (argsLoop fuel it o)) /\
+  (forall lo it af o, valid it -> (lo <= i_off it)%nat -> (8 * mu it + 3 <= fuel)%nat ->
+     F lo (strictIf (i_off it)) (parseAOT fuel it af o)) /\
+  (forall lo it o, valid it -> (lo <= i_off it)%nat -> (8 * mu it + 1 <= fuel)%nat ->
+     F lo (strictIf (i_off it)) (parseRound fuel it o)) /\
+  (forall lo it o, valid it -> (lo <= i_off it)%nat -> (8 * mu it + 1 <= fuel)%nat ->
+     F lo (strictIf (i_off it)) (parseAngle fuel it o)) /\
+  (forall lo it o, valid it -> (lo <= i_off it)%nat -> (8 * mu it + 4 <= fuel)%nat ->
+     F lo (fun _ off => (i_off it < off)%nat) (angleLoop fuel it o)).
+Proof.
+  induction fuel; [repeat split; intros; lia|].
+  destruct IHfuel as (IHt & IHl & IHa & IHr & IHg & IHgl).
+  split; [|split; [|split; [|split; [|split]]]].
+  - intros lo it af ar o V L Hf. cbn [parseTypeRef]. f_step. f_step. f_step; [f_go|].
+    f_step. f_step. f_step; [apply IHr; [assumption|f_lia|f_mu it]|].
+    f_step; [f_step; f_go|].
+    f_step; [apply IHg; [assumption|f_lia|f_mu it]|]. f_step; [f_go|].
+    match goal with |- F _ _ (match parseTypeRefAsName ?r _ with _ => _ end) =>
+      let HF := fresh "HF" in
+      assert (HF : F lo (strict (i_off r)) (parseTypeRefAsName r o)) by (apply parseTypeRefAsName_F; [assumption|f_lia]);
+      destruct (parseTypeRefAsName r o) as [a' r'|e| |]; cbn [F] in HF; [|f_go|exact I|contradiction];
+      destruct HF as (Vr & Lr & Hs)
+    end.
+    f_step. destruct af; [|f_go].
+    eapply F_conseq; [apply (IHl lo); [assumption|f_lia|f_mu it]|lia|]. intros. unfold strictIf. f_lia.
+  - intros lo it o V L Hf. cbn [argsLoop]. f_step. f_step; [apply IHa; [assumption|f_lia|f_mu it]|].
+    f_step; [|f_go]. eapply F_conseq; [apply (IHl lo); [assumption|f_lia|f_mu it]|lia|]. intros. f_lia.
+  - intros lo it af o V L Hf. cbn [parseAOT]. f_step.
+    f_step; [apply (proj1 (parseArithmetic_F fuel)); [assumption|f_lia|f_mu it]|].
+    destruct a; [f_go|]. f_step; [apply IHt; [assumption|f_lia|f_mu it]|]. f_go.
+  - intros lo it o V L Hf. cbn [parseRound]. f_step. f_step; [|f_go].
+    f_step; [apply IHt; [assumption|f_lia|f_mu it]|]. f_go.
+  - intros lo it o V L Hf. cbn [parseAngle].
+    pose proof (parseTypeRefAsName_F lo it o V L) as HF.
+    destruct (parseTypeRefAsName it o) as [a' r'|e| |]; cbn [F] in HF; [|f_go|exact I|contradiction].
+    destruct HF as (Vr & Lr & Hs). f_step. f_step; [|f_go]. f_step.
+    eapply F_conseq; [apply (IHgl lo); [assumption|f_lia|f_mu it]|lia|]. intros. unfold strictIf. f_lia.
+  - intros lo it o V L Hf. cbn [angleLoop]. f_step; [apply IHa; [assumption|f_lia|f_mu it]|].
+    f_step; [|f_go]. f_step. f_step.
+    + eapply F_conseq; [apply (IHgl lo); [assumption|f_lia|f_mu it]|lia|]. intros. f_lia.
+    + f_go.
+Qed.
+
+(** ** fields *)
+Lemma fields_F fuel :
+  (forall lo it o, valid it -> (lo <= i_off it)%nat -> (8 * mu it + 5 <= fuel)%nat ->
+     F lo (strictIf (i_off it)) (parseRepeat n fuel it o)) /\
+  (forall lo cs it o, valid it -> (lo <= i_off it)%nat -> (8 * mu it + 6 <= fuel)%nat ->
+     F lo (strict (i_off it)) (parseField n fuel cs it o)) /\
+  (forall lo cs it f1 f2 o, valid it -> (lo <= i_off it)%nat -> (8 * mu it + 7 <= fuel)%nat -> f1 <> T_eof -> f2 <> T_eof ->
+     F lo (strict (i_off it)) (fieldsLoop n fuel cs it f1 f2 o)).
+Proof.
+  induction fuel; [repeat split; intros; lia|].
+  destruct IHfuel as (IHr & IHf & IHl).
+  split; [|split].
+  - intros lo it o V L Hf. cbn [parseRepeat]. f_step.
+    f_step; [apply parseScaleFactorOpt_F; [assumption|f_lia|f_mu it]|]. cbv zeta.
+    assert (Hbody : forall r, valid r -> (i_off it < i_off r)%nat ->
+              F lo (strictIf (i_off it))
+                (bind (fieldsLoop n fuel r r (ty_chr tk_rSquareBracket) (ty_chr tk_rSquareBracket) o)
+                      (fun _ rest => touch rest (P_ok true rest)))).
+    { intros r Vr Lr. f_step; [apply IHl; [assumption|f_lia|f_mu it|noteof|noteof]|]. f_go. }
+    f_step.
+    + f_step. f_step; [|f_go]. f_step. f_step; [|f_go]. apply Hbody; [assumption|f_lia].
+    + f_step. f_step; [|f_go]. apply Hbody; [assumption|f_lia].
+  - intros lo cs it o V L Hf. cbn [parseField]. f_step.
+    destruct (negb (commentBeforeOk n cs it')); [exact I|].
+    f_step; [apply parseFieldName_F; [assumption|f_lia]|].
+    f_step; [apply parseFieldMask_F; [assumption|f_lia]|].
+    f_step. f_step; [apply IHr; [assumption|f_lia|f_mu it]|].
+    f_step; [f_go|]. f_step; [apply (proj1 (typeref_F fuel)); [assumption|f_lia|f_mu it]|]. f_go.
+  - intros lo cs it f1 f2 o V L Hf Hf1 Hf2. cbn [fieldsLoop].
+    f_step. f_step.
+    { f_step; [eapply eqb_type_ne; eassumption|]. f_go. }
+    f_step. f_step.
+    { f_step; [eapply eqb_type_ne; eassumption|]. f_go. }
+    f_step; [apply IHf; [assumption|f_lia|f_mu it]|]. cbv zeta.
+    match goal with Vr : valid ?r |- F _ _ (let '(_, _) := skipToNewline ?r in _) =>
+      destruct (skipToNewline_spec s ts Hwf r Vr) as (V' & L' & W'); destruct (skipToNewline r) as [nl r2]; cbn [snd] in *
+    end.
+    destruct (nl && negb (sliceOk n rest r2)); [exact I|].
+    eapply F_conseq; [apply (IHl lo); [assumption|f_lia|f_mu it|assumption|assumption]|lia|]. intros. f_lia.
+Qed.
+
+Lemma parseFuncDecl_F fuel lo it o : valid it -> (lo <= i_off it)%nat -> (8 * mu it + 2 <= fuel)%nat ->
+  F lo (fun _ off => (i_off it <= off)%nat) (parseFuncDecl fuel it o).
+Proof.
+  intros V L Hf. unfold parseFuncDecl. f_step; [apply (proj1 (typeref_F fuel)); [assumption|f_lia|f_mu it]|]. f_go.
+Qed.
+
+(** ** combinators and the file loop *)
+Lemma parseCombinator_F fuel cs it isF ab : valid it -> (8 * mu it + 7 <= fuel)%nat ->
+  F (i_off it) (strict (i_off it)) (parseCombinator n fuel cs it isF ab).
+Proof.
+  intros V Hf. unfold parseCombinator. f_step. destruct (front it') as [t0|]; [|exact I].
+  destruct (negb (commentBeforeOk n cs it')); [exact I|].
+  f_step; [apply parseModifiers_F; [assumption|f_lia|f_mu it]|].
+  f_step; [apply parseConstructor_F; [assumption|f_lia]|].
+  f_step. f_step; [apply parseTemplateArguments_F; [assumption|f_lia|f_mu it]|]. f_step. cbv zeta.
+  assert (Htail : forall isF' r, valid r -> (i_off it < i_off r)%nat ->
+            F (i_off it) (strict (A := unit) (i_off it))
+              (bind (if isF' then parseFuncDecl fuel r (t_pos t0) else parseTypeDeclaration fuel r (t_pos t0)) (fun _ rest =>
+               expc (ty_chr tk_semiColon) rest (fun b rest =>
+                 if negb b then errAt E1_semicolon rest (t_pos t0)
+                 else
+                   let commentStart := rest in
+                   let '(nl, rest) := skipToNewline rest in
+                   if nl && negb (sliceOk n commentStart rest) then P_panic
+                   else touch rest (P_ok tt rest))))).
+  { intros isF' r Vr Lr. f_step.
+    { destruct isF'.
+      - eapply F_conseq; [apply (parseFuncDecl_F fuel (i_off it)); [assumption|f_lia|f_mu it]|lia|]. intros ? ? ? HH. exact HH.
+      - eapply F_conseq; [apply (parseTypeDeclaration_F fuel (i_off it)); [assumption|f_lia|f_mu it]|lia|].
+        intros. instantiate (1 := fun _ off => (i_off r <= off)%nat \/ True). right. exact I. }
+    f_step. f_step; [|f_go]. cbv zeta.
+    match goal with Vr' : valid ?x |- F _ _ (let '(_, _) := skipToNewline ?x in _) =>
+      destruct (skipToNewline_spec s ts Hwf x Vr') as (V' & L' & W'); destruct (skipToNewline x) as [nl r2]; cbn [snd] in *
+    end.
+    match goal with |- F _ _ (if ?c then _ else _) => destruct c end; [exact I|]. f_go. }
+  f_step. f_step.
+  - f_step; [f_go|]. f_step. f_step. f_step; [|f_go]. apply Htail; [assumption|f_lia].
+  - f_step; [apply (proj2 (proj2 (fields_F fuel))); [assumption|f_lia|f_mu it|noteof|noteof]|].
+    apply Htail; [assumption|f_lia].
+Qed.
+
+Lemma tlLoop_F cfuel ab fuel : forall cs it fs, valid it -> (mu it + 1 <= fuel)%nat -> (8 * length ts + 7 <= cfuel)%nat ->
+  tlLoop n fuel cfuel ab cs it fs <> P_nofuel.
+Proof.
+  induction fuel; intros cs it fs V Hf Hc; [lia|]. cbn [tlLoop].
+  destruct (skipWS_spec s ts Hwf it V) as (rest & t & S & V' & Hle & _ & Fr & W).
+  unfold chk, checkToken. rewrite S, Fr.
+  destruct (Z.eqb (t_type t) T_eof) eqn:Ee.
+  - destruct (sliceOk n cs rest); discriminate.
+  - rewrite Fr. destruct (Z.eqb (t_type t) T_typesSection || Z.eqb (t_type t) T_functionsSection).
+    + destruct (negb (sliceOk n cs rest)); [discriminate|].
+      destruct (pop_valid s ts Hwf rest t V' Fr) as (r2 & P & V2 & O2); [apply Z.eqb_neq; exact Ee|].
+      unfold popk. rewrite P. apply IHfuel; [assumption| |assumption].
+      pose proof (mu_lt it r2 V2 ltac:(lia)). lia.
+    + assert (HC : F (i_off rest) (strict (i_off rest)) (parseCombinator n cfuel cs rest fs ab)).
+      { apply parseCombinator_F; [assumption|]. unfold mu. lia. }
+      destruct (parseCombinator n cfuel cs rest fs ab) as [a r2|e| |]; cbn [bind F] in *; try discriminate; [|contradiction].
+      destruct HC as (V2 & L2 & S2). unfold strict in S2. unfold touch. destruct (front cs); [|discriminate].
+      apply IHfuel; [assumption| |assumption]. pose proof (mu_lt it r2 V2 ltac:(lia)). lia.
+Qed.
+
+Theorem parseTokens_fuel ab : parseTokens n ab ts <> P_nofuel.
+Proof.
+  unfold parseTokens. apply tlLoop_F.
+  - split; [reflexivity|]. cbn. destruct (wf_eof _ _ Hwf) as (init & eoft & -> & _). rewrite app_length. simpl. lia.
+  - unfold mu. cbn. lia.
+  - unfold parseFuel. lia.
+Qed.
+
 End Fuel1.
+
+(** * ParseTLFile always terminates within its budget *)
+Theorem parseTLFile_fuel o s : parseTLFile o s <> PR_nofuel.
+Proof.
+  unfold parseTLFile. destruct (front_total o s) as [[e F0]|[toks F0]]; rewrite F0; [discriminate|].
+  pose proof (parseTokens_fuel s toks (front_tokens_wf o s toks F0) (o_builtin o)) as H.
+  destruct (parseTokens (lenN s) (o_builtin o) toks); try discriminate. contradiction.
+Qed.
